@@ -10,6 +10,7 @@ import (
 func judgeC06(role string, steps []string, w *World, res *MonitorResult) {
 	crashInPay := false
 	pendingErr := false
+	lastErr := "-"
 	var trail []string
 	for _, o := range w.obs {
 		switch o.Kind {
@@ -22,6 +23,9 @@ func judgeC06(role string, steps []string, w *World, res *MonitorResult) {
 				pendingErr = true
 			}
 		case "persist":
+			if o.A["lasterr"] != "" {
+				lastErr = o.A["lasterr"]
+			}
 			if n := len(trail); n == 0 || trail[n-1] != o.A["state"] {
 				trail = append(trail, o.A["state"])
 			}
@@ -44,7 +48,8 @@ func judgeC06(role string, steps []string, w *World, res *MonitorResult) {
 					}
 					cause = "other:" + strings.Join(t, ">")
 				}
-				res.addFinding(fmt.Sprintf("C06/%s/reveal-with-payment/%s", role, cause),
+				// the reason the node gave up is part of the signature: a new reason is a new violation
+				res.addFinding(fmt.Sprintf("C06/%s/reveal-with-payment/%s/%s", role, cause, lastErr),
 					fmt.Sprintf("%s sent coop_close (key revealed) while its claim payment is %s", role, o.A["pay"]),
 					map[string]interface{}{"scenario": scenarioKey(steps)})
 			}
@@ -68,9 +73,29 @@ func init() {
 			all = append(all, scn{role: k[0], steps: strings.Split(k[1], ";")})
 		}
 		all = append(all, sweepScenarios([]string{"outSender", "inReceiver"})...)
+		// back-end that returns the existing payment instead of refusing, with a channel balance that only
+		// just covers the claim: an attempt that errors while its HTLC is in flight is followed by a retry
+		tight := defaultCfg()
+		tight.IdempotentRepay = true
+		tight.SpendableMsat = 1200000000
+		for _, chain := range []string{"btc", "lbtc"} {
+			for _, res := range []string{"success", "fail"} {
+				all = append(all, scn{role: "outSender", cfg: &tight, steps: []string{"new outSender " + chain, "agree", "txmsg", "payout pending", "settle " + res + " later", "confirm", "restart", "confirm"}})
+				all = append(all, scn{role: "inReceiver", cfg: &tight, steps: []string{"new inReceiver " + chain, "txmsg", "payout pending", "settle " + res + " later", "confirm", "restart", "confirm"}})
+			}
+		}
 		for i := 0; i < n; i++ {
 			role := []string{"outSender", "inReceiver"}[r.intn(2)]
-			all = append(all, scn{role: role, steps: genScenario(r, role, r.intn(3) > 0)})
+			sc := scn{role: role, steps: genScenario(r, role, r.intn(3) > 0)}
+			if r.intn(3) == 0 {
+				c := defaultCfg()
+				c.IdempotentRepay = r.bool()
+				if r.bool() {
+					c.SpendableMsat = 1200000000
+				}
+				sc.cfg = &c
+			}
+			all = append(all, sc)
 		}
 		runMany(defaultCfg(), all, func(x scnResult) {
 			res.Evaluations++
